@@ -422,7 +422,8 @@ def _analyse_raw(cfg, ex):
 GROUPS = {
     'group': [(['s'], ['m1', 'm2'], ['t1', 't2'])],
     'nested_main': [(['s'], ['m1', 's2', 'n1', 'u1', 'm2'], ['t1']), (['s2'], ['n1'], ['u1'])],
-    'nested_td': [(['s'], ['m1'], ['t1', 't2']), (['s2'], ['n1'], ['u1'])],
+    # (the group nested in the teardown is itself a teardown node of the outer group: all of it runs, once)
+    'nested_td': [(['s'], ['m1'], ['t1', 's2', 'n1', 'u1', 't2']), (['s2'], ['n1'], ['u1'])],
     'group_in_subtest': [(['s'], ['m1'], ['t1', 't2'])],
 }
 
@@ -506,7 +507,7 @@ def configs(tier):
     return [(('plain3', 1, 'thread', 'wide'), 0), (('group', 1, 'thread', 'wide'), 0), (('trigger', 1, 'thread', 'wide'), 0),
             (('repeat', 1, 'thread', 'wide'), 0), (('subtest', 1, 'thread', 'wide'), 0),
             (('group', 1, 'thread', 'main'), 1), (('group', 2, 'thread', 'body'), 0), (('plain3', 1, 'sigint'), 1),
-            (('group', 2, 'sigint', 'free'), 0), (('group', 2, 'thread', 'tdgap'), 1)]
+            (('group', 2, 'sigint', 'free'), 0), (('group', 2, 'thread', 'tdgap'), 1), (('nested_td', 1, 'thread', 'wide'), 0)]
   return [(('plain3', 1, 'thread', 'all'), 1), (('group', 1, 'thread', 'all'), 1), (('trigger', 1, 'thread', 'all'), 1),
           (('repeat', 1, 'thread', 'all'), 1), (('subtest', 1, 'thread', 'all'), 1), (('group', 1, 'thread', 'body'), 2),
           (('group', 2, 'thread', 'wide'), 0), (('group', 2, 'thread', 'body'), 1), (('plain3', 2, 'thread', 'body'), 1),
